@@ -1,42 +1,54 @@
 (** C18 -- property theorems only.  Each is closed by [exact] of a lemma proved in the other files
     of this directory and followed by Print Assumptions.
-    Model: Rectgeo.v ([rect_blocks]/[rect_conns]: t2grid().fromgeo(mulgrid().rectangular(...));
-    [rectgeo]: t2grid.rectgeo, [fxp]/[fx2] = false: the code as it stands, true: with the proposed
-    repairs).  Class: Final.v [in_class] (any nx, ny, nz >= 2, positive spacings, any origin,
-    atmosphere 0/1/2, stepped surfaces leaving the bottom layer complete, one-to-one naming, some
-    column reaching the top of layer 1); [cn_ok]: ANY iteration order of the connection_name sets. *)
+    Model: Rectgeo.v ([rect_blocks]/[rect_conns]: t2grid().fromgeo(mulgrid().rectangular(...) rotated);
+    [rectgeo heading fxp fx2 grid origin_block atmos_volume remove_inactive layer_snap atmos_type naming]:
+    t2grid.rectgeo; [fxp]/[fx2] = true: the code since 0d340ee / 8b5d11e, false: before).
+    Class: Final.v [in_class] (any nx, ny, nz >= 2, positive spacings, any origin, ANY ORIENTATION (x-axis along a
+    unit vector), atmosphere 0/1/2, stepped surfaces leaving the bottom layer complete, one-to-one naming, some
+    column reaching the top of layer 1) and FinalTrim.v [in_class_trunc] (no column need reach it);
+    [cn_ok]: ANY iteration order of the connection_name sets; [heading_spec]: the heading function normalises
+    positive multiples of unit vectors (met by the executable [heading_exact]). *)
 From Coq Require Import List Bool Arith ZArith QArith Qcanon.
 From PTBase Require Import Exn.
-From P Require Import Rectgeo GeoFacts Forward Main Regen Final Witness.
+From P Require Import Rectgeo GeoFacts Forward Main Regen Final Heading Trim FinalTrim Witness.
 Import ListNotations.
 Open Scope Qc_scope.
 
-(** rectgeo(fromgeo(geo)) returns exactly: the three spacing lists, the origin, the top elevation,
-    every column surface, and the (pruned) block map -- whatever the set iteration order *)
+(** rectgeo(fromgeo(geo)) returns exactly: the three spacing lists, the position of the first node, the
+    orientation, the top elevation, every column surface, and the (pruned) block map -- whatever the set
+    iteration order, with or without origin_block / remove_inactive *)
 Theorem rectgeo_total : forall K keqb g (nm nm' : cid -> K) av snap, in_class keqb g nm nm' av snap ->
+  forall heading, heading_spec heading -> forall obk, ob_ok obk g nm -> forall rminact, rm_ok rminact g ->
   forall fxp fx2 cn, cn_ok K g nm cn -> clear_of_defects fxp fx2 g ->
-  rectgeo K keqb fxp fx2 (grid_of g nm cn) av snap (gatm g) nm' = Ok (expected keqb g nm nm').
+  rectgeo K keqb heading fxp fx2 (grid_of g nm cn) obk av rminact snap (gatm g) nm' = Ok (expected keqb g nm nm').
 Proof. exact rectgeo_total_lemma. Qed.
 Print Assumptions rectgeo_total.
 
 Theorem rectgeo_spacings : forall K keqb g (nm nm' : cid -> K) av snap, in_class keqb g nm nm' av snap ->
+  forall heading, heading_spec heading -> forall obk, ob_ok obk g nm -> forall rminact, rm_ok rminact g ->
   forall fxp fx2 cn, cn_ok K g nm cn -> clear_of_defects fxp fx2 g ->
-  exists r, rectgeo K keqb fxp fx2 (grid_of g nm cn) av snap (gatm g) nm' = Ok r /\
+  exists r, rectgeo K keqb heading fxp fx2 (grid_of g nm cn) obk av rminact snap (gatm g) nm' = Ok r /\
             r_dx r = gdx g /\ r_dy r = gdy g /\ r_dz r = gdz g.
 Proof. exact rectgeo_spacings_lemma. Qed.
 Print Assumptions rectgeo_spacings.
 
-(** position of the unrotated geometry (rotation: oracle only) *)
-Theorem rectgeo_position_unrotated : forall K keqb g (nm nm' : cid -> K) av snap, in_class keqb g nm nm' av snap ->
+(** position AND orientation, for every rotation (the geometry's x-axis along any unit vector) *)
+Theorem rectgeo_position_orientation : forall K keqb g (nm nm' : cid -> K) av snap, in_class keqb g nm nm' av snap ->
+  forall heading, heading_spec heading -> forall obk, ob_ok obk g nm -> forall rminact, rm_ok rminact g ->
   forall fxp fx2 cn, cn_ok K g nm cn -> clear_of_defects fxp fx2 g ->
-  exists r, rectgeo K keqb fxp fx2 (grid_of g nm cn) av snap (gatm g) nm' = Ok r /\
-            r_pos r = PosXY (gox g) (goy g) /\ r_oz r = goz g.
+  exists r, rectgeo K keqb heading fxp fx2 (grid_of g nm cn) obk av rminact snap (gatm g) nm' = Ok r /\
+            r_pos r = PosAx (gox g) (goy g) (gax g) (gay g) /\ r_oz r = goz g.
 Proof. exact rectgeo_position_lemma. Qed.
-Print Assumptions rectgeo_position_unrotated.
+Print Assumptions rectgeo_position_orientation.
+(** the executable heading function of the extracted model meets the specification *)
+Theorem heading_exact_meets_spec : heading_spec heading_exact.
+Proof. exact heading_exact_spec. Qed.
+Print Assumptions heading_exact_meets_spec.
 
 Theorem rectgeo_surface : forall K keqb g (nm nm' : cid -> K) av snap, in_class keqb g nm nm' av snap ->
+  forall heading, heading_spec heading -> forall obk, ob_ok obk g nm -> forall rminact, rm_ok rminact g ->
   forall fxp fx2 cn, cn_ok K g nm cn -> clear_of_defects fxp fx2 g ->
-  exists r, rectgeo K keqb fxp fx2 (grid_of g nm cn) av snap (gatm g) nm' = Ok r /\
+  exists r, rectgeo K keqb heading fxp fx2 (grid_of g nm cn) obk av rminact snap (gatm g) nm' = Ok r /\
             length (r_surf r) = (nx g * ny g)%nat /\
             forall i j, (i < nx g)%nat -> (j < ny g)%nat -> list_surf (length (r_dx r)) (r_surf r) (r_oz r) i j = gsurf g i j.
 Proof. exact rectgeo_surface_lemma. Qed.
@@ -45,60 +57,102 @@ Print Assumptions rectgeo_surface.
 (** fromgeo(reconstructed geometry, block map) has the original blocks (names, volumes, centres, order)
     and connections (names, orientation, direction, distances, areas, order) *)
 Theorem rectgeo_blockmap_regenerates : forall K keqb g (nm nm' : cid -> K) av snap, in_class keqb g nm nm' av snap ->
+  forall heading, heading_spec heading -> forall obk, ob_ok obk g nm -> forall rminact, rm_ok rminact g ->
   forall fxp fx2 cn r, cn_ok K g nm cn -> clear_of_defects fxp fx2 g ->
-  rectgeo K keqb fxp fx2 (grid_of g nm cn) av snap (gatm g) nm' = Ok r ->
+  rectgeo K keqb heading fxp fx2 (grid_of g nm cn) obk av rminact snap (gatm g) nm' = Ok r ->
   let f := fun c => apply_map K keqb (r_map r) (nm' c) in
-  let g' := rebuilt r (gatm g) (gatmvol g) (gatmconn g) in
+  let g' := rebuilt r (gatm g) (gatmvol g) (gatmconn g) (gatmz g) in
   rect_blocks f g' = rect_blocks nm g /\ rect_conns f g' = rect_conns nm g.
 Proof. exact rectgeo_blockmap_regenerates_lemma. Qed.
 Print Assumptions rectgeo_blockmap_regenerates.
 
 Theorem rectgeo_atmosphere : forall K keqb g (nm nm' : cid -> K) av snap, in_class keqb g nm nm' av snap ->
+  forall heading, heading_spec heading -> forall obk, ob_ok obk g nm -> forall rminact, rm_ok rminact g ->
   forall fxp fx2 cn r, cn_ok K g nm cn -> clear_of_defects fxp fx2 g ->
-  rectgeo K keqb fxp fx2 (grid_of g nm cn) av snap (gatm g) nm' = Ok r ->
+  rectgeo K keqb heading fxp fx2 (grid_of g nm cn) obk av rminact snap (gatm g) nm' = Ok r ->
   let f := fun c => apply_map K keqb (r_map r) (nm' c) in
-  let g' := rebuilt r (gatm g) (gatmvol g) (gatmconn g) in
+  let g' := rebuilt r (gatm g) (gatmvol g) (gatmconn g) (gatmz g) in
   gatm g' = gatm g /\ map (mk_block f) (atm_cells g') = map (mk_block nm) (atm_cells g) /\
   map (mk_block f) (rock_cells g') = map (mk_block nm) (rock_cells g).
 Proof. exact rectgeo_atmosphere_lemma. Qed.
 Print Assumptions rectgeo_atmosphere.
 
 Theorem track_order_independent : forall K keqb g (nm nm' : cid -> K) av snap, in_class keqb g nm nm' av snap ->
+  forall heading, heading_spec heading -> forall obk, ob_ok obk g nm -> forall rminact, rm_ok rminact g ->
   forall fxp fx2 cn cn', cn_ok K g nm cn -> cn_ok K g nm cn' -> clear_of_defects fxp fx2 g ->
-  rectgeo K keqb fxp fx2 (grid_of g nm cn) av snap (gatm g) nm' = rectgeo K keqb fxp fx2 (grid_of g nm cn') av snap (gatm g) nm'.
+  rectgeo K keqb heading fxp fx2 (grid_of g nm cn) obk av rminact snap (gatm g) nm' =
+  rectgeo K keqb heading fxp fx2 (grid_of g nm cn') obk av rminact snap (gatm g) nm'.
 Proof. exact track_order_independent_lemma. Qed.
 Print Assumptions track_order_independent.
 
-(** the two recorded defects of the code as it stands, for every geometry they apply to *)
-Theorem single_block_direction_1_gives_nan_position : forall K keqb g (nm nm' : cid -> K) av snap, in_class keqb g nm nm' av snap ->
+(** ** no column reaches the top of layer 1 (or upper layers hold no block): the grid IS the grid of the
+    trimmed geometry, and rectgeo returns exactly the trimmed geometry *)
+Theorem unreached_top_grid_is_trimmed_grid : forall g, wf g -> forall kt i0 j0, (1 <= kt < nz g)%nat ->
+  (i0 < nx g)%nat -> (j0 < ny g)%nat ->
+  (forall i j, (i < nx g)%nat -> (j < ny g)%nat -> gsurf g i j <= gsurf g i0 j0) ->
+  bot g kt < gsurf g i0 j0 -> gsurf g i0 j0 <= top g kt ->
+  forall K (nm : cid -> K),
+  rect_blocks nm g = rect_blocks (fun c => nm (sh kt c)) (trim g kt i0 j0) /\
+  rect_conns nm g = rect_conns (fun c => nm (sh kt c)) (trim g kt i0 j0).
+Proof. exact (fun g W kt i0 j0 KT Hi Hj SM B1 B2 K nm => conj (blocks_trim g W kt i0 j0 KT Hi Hj SM B1 B2 K nm) (conns_trim g W kt i0 j0 KT Hi Hj SM B1 B2 K nm)). Qed.
+Print Assumptions unreached_top_grid_is_trimmed_grid.
+
+Theorem rectgeo_top_unreached : forall K keqb g (nm nm' : cid -> K) av snap kt i0 j0, in_class_trunc keqb g nm nm' av snap kt i0 j0 ->
+  forall heading, heading_spec heading -> forall obk, ob_ok obk g nm -> forall rminact, rm_ok rminact g ->
+  forall fxp fx2 cn, cn_ok K g nm cn -> clear_of_defects fxp fx2 g ->
+  exists r, rectgeo K keqb heading fxp fx2 (grid_of g nm cn) obk av rminact snap (gatm g) nm' = Ok r /\
+    r_dx r = gdx g /\ r_dy r = gdy g /\
+    r_dz r = (gsurf g i0 j0 - bot g kt) :: skipn kt (gdz g) /\
+    r_pos r = PosAx (gox g) (goy g) (gax g) (gay g) /\ r_oz r = gsurf g i0 j0 /\
+    (forall i j, (i < nx g)%nat -> (j < ny g)%nat -> list_surf (length (r_dx r)) (r_surf r) (r_oz r) i j = gsurf g i j).
+Proof. exact rectgeo_top_unreached_fields_lemma. Qed.
+Print Assumptions rectgeo_top_unreached.
+
+Theorem rectgeo_top_unreached_regenerates : forall K keqb g (nm nm' : cid -> K) av snap kt i0 j0, in_class_trunc keqb g nm nm' av snap kt i0 j0 ->
+  forall heading, heading_spec heading -> forall obk, ob_ok obk g nm -> forall rminact, rm_ok rminact g ->
+  forall fxp fx2 cn r, cn_ok K g nm cn -> clear_of_defects fxp fx2 g ->
+  rectgeo K keqb heading fxp fx2 (grid_of g nm cn) obk av rminact snap (gatm g) nm' = Ok r ->
+  let f := fun c => apply_map K keqb (r_map r) (nm' c) in
+  let g' := rebuilt r (gatm g) (gatmvol g) (gatmconn g) (gatmz g) in
+  rect_blocks f g' = rect_blocks nm g /\ rect_conns f g' = rect_conns nm g.
+Proof. exact rectgeo_top_unreached_regenerates_lemma. Qed.
+Print Assumptions rectgeo_top_unreached_regenerates.
+
+(** ** the two repaired defects (the code before 0d340ee / 8b5d11e), for every geometry they apply to *)
+Theorem single_block_direction_1_gave_nan_position : forall K keqb g (nm nm' : cid -> K) av snap, in_class keqb g nm nm' av snap ->
+  forall heading, heading_spec heading -> forall obk, ob_ok obk g nm -> forall rminact, rm_ok rminact g ->
   forall fx2 cn, cn_ok K g nm cn -> nx g = 1%nat -> (fx2 = false -> has g (nz g - 1) 0 0 = true \/ (gatm g < 2)%nat) ->
-  exists r, rectgeo K keqb false fx2 (grid_of g nm cn) av snap (gatm g) nm' = Ok r /\ r_pos r = PosNaN /\
+  exists r, rectgeo K keqb heading false fx2 (grid_of g nm cn) obk av rminact snap (gatm g) nm' = Ok r /\ r_pos r = PosNaN /\
             r_dx r = gdx g /\ r_dy r = gdy g /\ r_dz r = gdz g.
 Proof. exact single_block_direction_1_nan_lemma. Qed.
-Print Assumptions single_block_direction_1_gives_nan_position.
+Print Assumptions single_block_direction_1_gave_nan_position.
 
-Theorem origin_column_2d_no_atmosphere_raises : forall K keqb g (nm nm' : cid -> K) av snap, in_class keqb g nm nm' av snap ->
+Theorem origin_column_2d_no_atmosphere_raised : forall K keqb g (nm nm' : cid -> K) av snap, in_class keqb g nm nm' av snap ->
+  forall heading, heading_spec heading -> forall obk, ob_ok obk g nm -> forall rminact, rm_ok rminact g ->
   forall fxp cn, cn_ok K g nm cn -> (nx g = 1%nat \/ ny g = 1%nat) -> has g (nz g - 1) 0 0 = false -> (2 <= gatm g)%nat ->
-  rectgeo K keqb fxp false (grid_of g nm cn) av snap (gatm g) nm' = Raise IndexError.
+  rectgeo K keqb heading fxp false (grid_of g nm cn) obk av rminact snap (gatm g) nm' = Raise IndexError.
 Proof. exact origin_column_2d_indexerror_lemma. Qed.
-Print Assumptions origin_column_2d_no_atmosphere_raises.
+Print Assumptions origin_column_2d_no_atmosphere_raised.
 
-(** the unguarded statements are refuted for the code as it stands (witnesses = the recorded findings) *)
-Theorem rectgeo_position_refuted : exists g, in_class cid_eqb g idn idn (q 1000) 0 /\
-  forall r, rectgeo cid cid_eqb false false (grid_of g idn (cn_canonical cid_eqb g idn)) (q 1000) 0 (gatm g) idn = Ok r ->
-            r_pos r <> PosXY (gox g) (goy g).
+Theorem rectgeo_position_refuted_before_repair : exists g, in_class cid_eqb g idn idn (q 1000) 0 /\
+  forall r, rectgeo cid cid_eqb heading_exact false false (grid_of g idn (cn_canonical cid_eqb g idn)) None (q 1000) false 0 (gatm g) idn = Ok r ->
+            r_pos r <> PosAx (gox g) (goy g) (gax g) (gay g).
 Proof. exact position_refuted_as_is. Qed.
-Print Assumptions rectgeo_position_refuted.
-Theorem rectgeo_spacings_refuted : exists g, in_class cid_eqb g idn idn (q 10000) 0 /\
-  forall r, rectgeo cid cid_eqb false false (grid_of g idn (cn_canonical cid_eqb g idn)) (q 10000) 0 (gatm g) idn <> Ok r.
+Print Assumptions rectgeo_position_refuted_before_repair.
+Theorem rectgeo_spacings_refuted_before_repair : exists g, in_class cid_eqb g idn idn (q 10000) 0 /\
+  forall r, rectgeo cid cid_eqb heading_exact false false (grid_of g idn (cn_canonical cid_eqb g idn)) None (q 10000) false 0 (gatm g) idn <> Ok r.
 Proof. exact spacings_refuted_as_is. Qed.
-Print Assumptions rectgeo_spacings_refuted.
+Print Assumptions rectgeo_spacings_refuted_before_repair.
 
-(** the hypotheses are satisfiable: a stepped 2 x 2 x 3 geometry with atmosphere blocks is in the class *)
+(** ** the hypotheses are satisfiable: a stepped, ROTATED (x-axis along (4/5, -3/5)) 2 x 2 x 3 geometry with
+    atmosphere blocks is in the class; a geometry none of whose columns reaches the top is in the truncated class *)
 Theorem class_inhabited : in_class cid_eqb w1 idn idn (q 1000) 0 /\ clear_of_defects false false w1 /\
   cn_ok cid w1 idn (cn_canonical cid_eqb w1 idn).
 Proof. exact (conj w1_class (conj w1_clear (cn_canonical_ok cid_eqb w1 idn cid_eqb_eq))). Qed.
 Print Assumptions class_inhabited.
+Theorem class_trunc_inhabited : in_class_trunc cid_eqb w4 idn idn (q 1000) 0 2 0 0.
+Proof. exact w4_class. Qed.
+Print Assumptions class_trunc_inhabited.
 
 (** when the hypothesis [ic_nosnap] of the class holds: layer_snap <= 0, or every column's top block
     at least layer_snap high *)
